@@ -180,6 +180,29 @@ def r2_sequence(program, folder, rep):
     (c_end, b_end), = by_cmd["end"]
     n_start, n_blk, n_end = [cfg.node_containing(c) for c in (c_start, c_blk,
                                                               c_end)]
+    # a size limit may refuse an image, but only one with more blocks than
+    # the boot ROM's buffer holds (BOOT_MAX_BLOCKS): an image of exactly that
+    # many blocks is sent
+    TL = Terms(fn)
+    MAXB = const(ast.parse("BOOT_MAX_BLOCKS", mode="eval").body)
+    if MAXB is not None:
+        tn = TL.cfg.node_containing(c_start)
+        for t, p_ in TL.all_facts(tn):
+            if t[0] != "cmp" or t[1] not in ("Lt", "LtE") or not p_:
+                continue
+            sides = [t[2], t[3]]
+            cs = [const(reify(plain(x))) for x in sides]
+            if cs[1] == MAXB and cs[0] is None and sides[0][0] in (
+                    "binop", "mu", "call"):
+                # <blocks> (<|<=) MAX holds where sending starts
+                rep.check(t[1] == "LtE", "C20-R2", inst, "an image is "
+                          "refused only if it needs more than "
+                          "BOOT_MAX_BLOCKS blocks", construct="size limit",
+                          node=c_start,
+                          fail="sending starts only when the block count is "
+                               "strictly below BOOT_MAX_BLOCKS: a legal "
+                               "image of exactly BOOT_MAX_BLOCKS blocks is "
+                               "refused and never sent")
     rep.check(cfg.dominates(n_start, n_blk) and cfg.dominates(n_start, n_end)
               and not cfg.reaches(n_blk, n_start), "C20-R2", inst,
               "the start datagram precedes every block and the end datagram",
